@@ -310,7 +310,9 @@ def judge_file(text: str, parent: Parent, rmap: RegionMap, info: dict) -> tuple:
             if wrong:
                 bad("number_order", {"kind": kind,
                                      "by_number": [loc_text(feat.loc) for feat, _ in keyed],
-                                     "parent_by_number": [loc_text(origin.loc) for _, origin in keyed]})
+                                     "parent_by_number": [loc_text(origin.loc) for _, origin in keyed],
+                                     "parent_numbers_by_file_number": [int(origin.first(NUMBER_KEY[kind]))
+                                                                       for _, origin in keyed]})
     for feat, origin in by_type.get("proto_core", []):
         product = feat.first("product")
         number = int(feat.first("protocluster_number", "0"))
@@ -622,6 +624,10 @@ def check_region_files(spec: dict, sub: str = "files", beyond_known: bool = Fals
         return {"nontrivial": False, "classes": ["excluded_region_structure"]}
 
     shared_mode = spec.get("mode") == "shared"
+    if shared_mode:
+        # what antismash.main.add_antismash_comments puts on the records before the region files are written
+        record.annotations["structured_comment"] = {"antiSMASH-Data": {"Version": "8.dev",
+                                                                         "Run date": "2000-01-01 00:00:00"}}
     parent_text = genbank_text(record.to_biopython())
     parent = Parent(parent_text)
     violations: list = []
@@ -787,7 +793,9 @@ def sig_origin_region_numbering(sub, spec, clause, detail) -> bool:
         return detail["file"] == [num - parent[0] + 1 for num in parent] and parent != list(
             range(parent[0], parent[0] + len(parent)))
     if clause == "number_order":
-        return True
+        # the file keeps the parent's order of numbers
+        numbers = detail["parent_numbers_by_file_number"]
+        return numbers == sorted(numbers)
     return False
 
 
